@@ -1045,5 +1045,36 @@ theorem partnersLoop_fuel (env : Env) (pseudo : Bool) (fuel k : Nat) (rest order
           exact ih _ _ hl
         · exact ih _ _ hf
 
+/-- where `glyphNames = glyphNames[1:]` stands does not matter as long as no waiting name is its own close
+relative: the head is then never what the search finds -/
+theorem partnersLoopHeadWaiting_eq (env : Env) (pseudo : Bool) (fuel : Nat) (rest order : List Name)
+    (hno : ∀ n ∈ rest, env.closeRelativeFor n pseudo ≠ some n) :
+    partnersLoopHeadWaiting env pseudo fuel rest order = partnersLoop env pseudo fuel rest order := by
+  induction fuel generalizing rest order with
+  | zero => simp [partnersLoopHeadWaiting, partnersLoop]
+  | succ fuel ih =>
+    cases rest with
+    | nil => simp [partnersLoopHeadWaiting, partnersLoop]
+    | cons g rest =>
+      have hrest : ∀ n ∈ rest, env.closeRelativeFor n pseudo ≠ some n :=
+        fun n hn => hno n (mem_cons_of_mem _ hn)
+      unfold partnersLoopHeadWaiting partnersLoop
+      cases hc : env.closeRelativeFor g pseudo with
+      | none => simp only; exact ih _ _ hrest
+      | some c =>
+        have hne : g ≠ c := by
+          intro h
+          exact hno g mem_cons_self (by rw [hc, h])
+        have hcont : (g :: rest).contains c = rest.contains c := by
+          simp [Ne.symm hne]
+        have herase : ((g :: rest).erase c).tail = rest.erase c := by
+          rw [List.erase_cons_tail (by simpa using hne)]; rfl
+        simp only [hcont, herase]
+        split
+        · apply ih
+          intro n hn
+          exact hrest n (List.mem_of_mem_erase hn)
+        · exact ih _ _ hrest
+
 end NameSort
 end DefconModel
